@@ -108,6 +108,9 @@ class CellCycleController:
     # Active operations
     active_operations: dict[str, OperationContext] = field(default_factory=dict)
 
+    # Pending blocked requests: operation_id -> resource ids it is blocked on
+    blocked_requests: dict[str, set[str]] = field(default_factory=dict)
+
     def __post_init__(self):
         # Set up default checkpoints if none provided
         if not self.checkpoints:
@@ -194,25 +197,28 @@ class CellCycleController:
         lock = self.resources[resource_id]
         result = lock.try_acquire(owner=ctx.operation_id, priority=ctx.priority)
 
-        if result == LockResult.ACQUIRED or result == LockResult.REENTRANT:
+        if result == LockResult.BLOCKED:
+            self.blocked_requests.setdefault(ctx.operation_id, set()).add(resource_id)
+        else:
+            # ACQUIRED, REENTRANT or PREEMPTED: we now own it
             ctx.add_acquired_resource(lock)
-            # Remove any dependency since we now own it
-            self.dependency_graph.remove_all_for_agent(ctx.operation_id)
+            self.blocked_requests.get(ctx.operation_id, set()).discard(resource_id)
 
-        elif result == LockResult.BLOCKED:
-            # Add to dependency graph
-            self.dependency_graph.add_dependency(
-                waiter=ctx.operation_id,
-                blocking=lock.owner,
-                resource=resource_id,
-            )
-
-        elif result == LockResult.PREEMPTED:
-            ctx.add_acquired_resource(lock)
-            # Clear old dependencies
-            self.dependency_graph.remove_all_for_agent(ctx.operation_id)
-
+        self._sync_dependencies()
         return result
+
+    def _sync_dependencies(self) -> None:
+        """Rebuild the wait-for graph from blocked requests and current owners."""
+        self.dependency_graph.clear()
+        for op_id in sorted(self.blocked_requests):
+            for resource_id in sorted(self.blocked_requests[op_id]):
+                owner = self.resources[resource_id].owner
+                if owner is not None and owner != op_id:
+                    self.dependency_graph.add_dependency(
+                        waiter=op_id,
+                        blocking=owner,
+                        resource=resource_id,
+                    )
 
     def release_resource(self, ctx: OperationContext, resource_id: str) -> bool:
         """Release a resource."""
@@ -226,7 +232,7 @@ class CellCycleController:
             if lock.owner != ctx.operation_id:
                 # Still held reentrantly otherwise: keep tracking it
                 del ctx.acquired_resources[resource_id]
-            self.dependency_graph.remove_all_for_agent(ctx.operation_id)
+            self._sync_dependencies()
 
         return released
 
@@ -254,6 +260,8 @@ class CellCycleController:
 
         if ctx.operation_id in self.active_operations:
             del self.active_operations[ctx.operation_id]
+        self.blocked_requests.pop(ctx.operation_id, None)
+        self._sync_dependencies()
 
         duration = datetime.utcnow() - ctx.created_at
 
@@ -280,6 +288,8 @@ class CellCycleController:
 
         if ctx.operation_id in self.active_operations:
             del self.active_operations[ctx.operation_id]
+        self.blocked_requests.pop(ctx.operation_id, None)
+        self._sync_dependencies()
 
         duration = datetime.utcnow() - ctx.created_at
 
